@@ -33,7 +33,12 @@
 (*     row;                                                                *)
 (*   - an object under key k of an object is referenced from column k of   *)
 (*     the owner's row; an array element points back to the item owning    *)
-(*     the array from the one column of its table that is not a key;       *)
+(*     the array from the one column of its table that is not a key; such  *)
+(*     a column has the type Ref:<table pointed to> (for a key column: if  *)
+(*     all its non-null entries are references - a column that also holds  *)
+(*     scalars keeps the type of its first value, as documented);          *)
+(*   - every column of a table has as many values as the table has items,  *)
+(*     and every non-null cell of the output is one of the above;          *)
 (*   - a path is kept iff (no includes or some include is a prefix of its  *)
 (*     name) and no exclude is a prefix of its name; a row exists iff its  *)
 (*     table is kept, a cell iff its row exists and the path table_key is  *)
